@@ -35,7 +35,28 @@ Fixpoint qloc (l : str) : option (str * str) :=
     else consv c (qloc r)
   end.
 
-(* argstr[i - 1] == "." after the loop: ONE trailing dot is given back (whether it was escaped or not) *)
+(* was the last character the loop took written after a backslash?  (981b2a74: argstr[i - 2 : i - 1] != backslash; a raw
+   backslash is only ever taken as the start of an escape) *)
+Fixpoint last_esc (l : str) (cur : bool) : bool :=
+  match l with
+  | [] => cur
+  | c :: r =>
+    if c =? BSL then
+      match r with
+      | [] => cur
+      | e :: r' => if escape_char e then last_esc r' true else cur
+      end
+    else if not_qname c then cur
+    else if c =? 37 then
+      match r with
+      | h1 :: h2 :: _ => if is_hex h1 && is_hex h2 then last_esc r false else cur
+      | _ => cur
+      end
+    else last_esc r false
+  end.
+
+(* argstr[i - 1] == "." after the loop: ONE trailing dot is given back; for the local part only if it was not escaped
+   (since 981b2a74; before, also an escaped dot was given back: finding C05r) *)
 Definition give_back_dot (x : str * str) : str * str :=
   let '(cs, rest) := x in
   match cs with
@@ -54,7 +75,7 @@ Definition n3_qname (l : str) : option ((str * str) * str) :=
         else give_back_dot (span (fun x => negb (not_name x)) l) in
       if starts_with 58 r0 then
         match qloc (tl r0) with
-        | Some x => let '(ln, rest) := give_back_dot x in Some ((pfx, ln), rest)
+        | Some x => let '(ln, rest) := if last_esc (tl r0) false then x else give_back_dot x in Some ((pfx, ln), rest)
         | None => None
         end
       else None
@@ -135,19 +156,8 @@ Definition stops_name (rest : str) : bool :=
   | c :: r => stop_char c || ((c =? 46) && match r with [] => true | d :: _ => stop_char d end)
   end.
 
-(* finding trigger 18 (C05r): the local part ends in the escape backslash-dot: qname's trailing-dot rule takes the ESCAPED dot
-   for the end of the statement *)
-Definition ends_with_escaped_dot (l : str) : bool :=
-  match t_pname l with
-  | Some (_, rest) => let consumed := firstn (length l - length rest) l in
-                      match rev consumed with
-                      | d :: b :: _ => (d =? 46) && (b =? BSL)
-                      | _ => false
-                      end
-  | None => false
-  end.
-Definition p_kf (c : pcase) : N := if ends_with_escaped_dot (p_text c) then 18 else 0.
-
+(* (finding C05r - the local part ends in the escape backslash-dot and qname gave the ESCAPED dot back - was repaired by
+   981b2a74; no trigger is left) *)
 Definition p_spec_ok (c : pcase) (o : pobs) : bool :=
   match t_pname (p_text c) with
   | Some ((pfx, ln), rest) =>
